@@ -140,6 +140,40 @@ def modified_names(stmts, registry=None, module=None):
     return assigned, mutated, args
 
 
+def escaping_jump(node):
+    """'return' / 'break' / 'continue' if the statement can transfer control out of itself that
+    way (a break / continue bound to a loop inside the statement does not count), else None"""
+    def walk(n, in_loop):
+        if isinstance(n, (ast.FunctionDef, ast.AsyncFunctionDef, ast.Lambda, ast.ClassDef)):
+            return None
+        if isinstance(n, ast.Return):
+            return 'return'
+        if isinstance(n, ast.Break) and not in_loop:
+            return 'break'
+        if isinstance(n, ast.Continue) and not in_loop:
+            return 'continue'
+        if isinstance(n, (ast.For, ast.While)):
+            for ch in n.body:
+                r = walk(ch, True)
+                if r:
+                    return r
+            for ch in n.orelse:
+                r = walk(ch, in_loop)
+                if r:
+                    return r
+            return None
+        for ch in ast.iter_child_nodes(n):
+            r = walk(ch, in_loop)
+            if r:
+                return r
+        return None
+    for ch in ast.iter_child_nodes(node):
+        r = walk(ch, False)
+        if r:
+            return r
+    return None
+
+
 def names_in(node):
     return {n.id for n in ast.walk(node) if isinstance(n, ast.Name)}
 
@@ -270,6 +304,11 @@ class Executor:
             src = ast.unparse(node).split('\n')[0][:80]
         except Exception:
             src = type(node).__name__
+        esc = escaping_jump(node)
+        if esc is not None:
+            # "havoc what it assigns; may raise" would silently drop this control transfer
+            raise Unsupported(f"cannot abstract the statement at line {node.lineno}: it contains "
+                              f"`{esc}` (reason for abstraction: {why[:80]})")
         ctx.abstracted.append(f"L{node.lineno}: {src}  [{why[:60]}]")
         assigned, mutated, args = modified_names([node])
         tracked = set(ctx.contract.tracked)
